@@ -235,6 +235,19 @@ def rangeTokens (a : Option Nat) (dots : Bool) (b : Option Nat) : List RTok :=
 def rangeDenotes (a : Option Nat) (dots : Bool) (b : Option Nat) : Option Int × Option Int :=
   if dots then (a.map Int.ofNat, b.map Int.ofNat) else (a.map Int.ofNat, a.map Int.ofNat)
 
+/-- one child of oC_RangeLiteral as the loop of EnterOC_RangeLiteral classifies it -/
+def rangeTok (N : Names) (f : Nat) (k : Tree) : Option RTok :=
+  match k with
+  | .leaf s => if leafType s == N.tok "T__9" then some RTok.star else if leafType s == N.tok "T__11" then some RTok.dots else some (RTok.other (leafText s))
+  | .node _ _ => some (RTok.int (parseInt64 (getText f k)))
+  | .err _ => none
+
+/-- RelationshipPatternVisitor.EnterOC_RangeLiteral on one oC_RangeLiteral node -/
+def rangeOf (N : Names) (f : Nat) (r : Tree) : R (Option (Option Int × Option Int)) :=
+  let st := parseRange ((kids r).filterMap (rangeTok N f))
+  -- SP children are `other` tokens: the real loop reports "unexpected token in pattern range" for them
+  if st.errors > 0 then .error (.rejected "pattern range") else .ok (some (st.start, st.stop))
+
 /-! ### build -/
 
 section Build
@@ -553,14 +566,7 @@ def bRel : Nat → Tree → R PatEl
         | none => []
       let range : R (Option (Option Int × Option Int)) := match kidOfRule N d "oC_RangeLiteral" with
         | none => .ok none
-        | some r =>
-          let toks := (kids r).filterMap (fun k => match k with
-            | .leaf s => if leafType s == N.tok "T__9" then some RTok.star else if leafType s == N.tok "T__11" then some RTok.dots else some (RTok.other (leafText s))
-            | .node _ _ => some (RTok.int (parseInt64 (getText (f + 1) k)))
-            | .err _ => none)
-          let st := parseRange toks
-          -- SP children are `other` tokens: the real loop reports "unexpected token in pattern range" for them
-          if st.errors > 0 then .error (.rejected "pattern range") else .ok (some (st.start, st.stop))
+        | some r => rangeOf N (f + 1) r
       match range, kidOfRule N d "oC_Properties" with
       | .error e, _ => .error e
       | .ok rg, none => .ok (.rel v kinds dir rg none)
